@@ -349,14 +349,28 @@ def oracle(case):
             bad("sound", "%s: returned a map that is not a label-preserving monomorphism: %r"
                 % (tag, [dict(k) for k in set(keys) - Bset][:2]))
             continue
-        guard_region = strict and hcc > pcc and st != "all"      # documented strict_cc_count guard: outside the property text
+        # documented strict_cc_count guard: the COMPONENT strategy returns [] when the host has more components than the
+        # pattern -- outside the property text, no demand on "comp" there.  It is NOT an excuse for "bt": the fallback clause
+        # ("that set if non-empty and the exhaustive set otherwise") is checked in every configuration, against the
+        # implementation's own comp / all results and against the brute-force sets.
+        guard_region = strict and hcc > pcc and st == "comp"
         # ---- exactness of the unlimited result
         U = unlimited(st, strict)
         Uset = {_fs(m) for m in U}
+        if st == "bt":
+            Uc, Ua = unlimited("comp", strict), unlimited("all", strict)
+            src, sname = (Uc, "its own component-aware result") if Uc else (Ua, "its own exhaustive result (component-aware result is empty)")
+            if Uset != {_fs(m) for m in src} or len(U) != len(src):
+                bad("fallback-dispatch", "%s: unlimited bt has %d maps but must equal %s with %d maps (comp %d, all %d)"
+                    % (tag, len(U), sname, len(src), len(Uc), len(Ua)))
+                continue
         if st == "all" or hcc < pcc:
             want, name = Bset, "exhaustive"
         elif st == "comp":
             want, name = SEPset, "component-separating"
+        elif strict and hcc > pcc:
+            # comp is [] by the documented parameter (or [{}] for an empty pattern): bt must give the exhaustive set
+            want, name = Bset, "fallback(exhaustive, strict_cc_count guard)"
         else:
             want, name = (SEPset if SEPset else Bset), "fallback"
         if not guard_region:
@@ -369,7 +383,7 @@ def oracle(case):
             k = min(mr, len(Ux)) if mr else len(Ux)
             return [] if k > T else Ux[:k]
         ok = [E(U)]
-        if st == "bt" and not U and not guard_region:
+        if st == "bt" and not U:
             ok.append(E(unlimited("all", strict)))
         if st != "all" and hcc >= pcc and pcc >= 2 and not (strict and hcc > pcc) and any(c > T for c in percc_counts()):
             # documented enumeration guard: a per-component embedding list longer than the threshold empties the
